@@ -84,6 +84,7 @@ def excluded(excl, c, fn, cfg):
 
 
 NOT_COVERED = []
+UNMATCHED = []
 
 
 def gather(prop, cfgs, only=None, tier='thorough'):
@@ -94,6 +95,7 @@ def gather(prop, cfgs, only=None, tier='thorough'):
     dbs = {}
     excl = load_exclusions(prop)
     del NOT_COVERED[:]
+    del UNMATCHED[:]
     res = P.extract_many(cfgs)
     for cfg in cfgs:
         db = P.load_db(cfg)
@@ -105,6 +107,9 @@ def gather(prop, cfgs, only=None, tier='thorough'):
                 nerr += 1
                 continue
             c = families.contract_for(fn, db)
+            if c is None and families.name_in_property(fn.get('name'), prop) and families.looks_like_api(fn, db):
+                UNMATCHED.append('%s: %s(%s) [%s] %s:%s' % (cfg, fn['name'], ', '.join(p['ctype'] for p in fn['params']), fn.get('owner') or '-',
+                                                          os.path.basename(fn.get('file') or '?'), fn.get('line')))
             if c is None or prop not in c.props:
                 continue
             if tier == 'quick' and not quick_sample(fn, c, db):
@@ -374,6 +379,7 @@ def write_ev(prop, tier, cfgs, obs, passed, violations, known_hits, undecided, c
             'canaries_run': len(canaries), 'canaries_failed_as_required': len(canaries) - len(bad_canaries),
             'extraction_problems': problems[:50],
             'partial_domain_obligations_discharged_not_counted_as_proof': n_partial,
+            'api_functions_without_contract': sorted(set(UNMATCHED))[:200],
             'not_covered': NOT_COVERED[:200],
             'not_covered_count': len(NOT_COVERED),
             'partial_domain_functions': sorted({ob.ident() + ': ' + ob.contract.partial for ob in obs if getattr(ob.contract, 'partial', None)})[:80],
